@@ -77,58 +77,44 @@ func splitImplies(s string) string {
 	return s
 }
 
-// rewriteNestedImplies handles ==> inside parentheses.
+// rewriteImplies turns every a ==> b (lowest precedence, right associative,
+// also inside parentheses and call arguments) into implies(a, b).
 func rewriteImplies(s string) string {
-	// innermost-first: find parenthesised groups containing ==>
-	for {
-		k := strings.Index(s, "==>")
-		if k < 0 {
-			return s
-		}
-		// find enclosing paren of position k
-		depth := 0
-		open := -1
-		for i := k; i >= 0; i-- {
-			if s[i] == ')' {
-				depth++
-			} else if s[i] == '(' {
-				if depth == 0 {
-					open = i
-					break
+	if !strings.Contains(s, "==>") {
+		return s
+	}
+	// first rewrite inside every top-level bracket group
+	var sb strings.Builder
+	depth := 0
+	start := -1
+	for i := 0; i < len(s); i++ {
+		ch := s[i]
+		switch ch {
+		case '(', '[', '{':
+			if depth == 0 {
+				start = i
+			}
+			depth++
+		case ')', ']', '}':
+			depth--
+			if depth == 0 && start >= 0 {
+				inner := s[start+1 : i]
+				parts := splitTop(inner, ',')
+				for k := range parts {
+					parts[k] = rewriteImplies(parts[k])
 				}
-				depth--
+				sb.WriteByte(s[start])
+				sb.WriteString(strings.Join(parts, ","))
+				sb.WriteByte(ch)
+				start = -1
+				continue
 			}
 		}
-		if open < 0 {
-			return splitImplies(s)
-		}
-		depth = 0
-		cl := -1
-		for i := open; i < len(s); i++ {
-			if s[i] == '(' {
-				depth++
-			} else if s[i] == ')' {
-				depth--
-				if depth == 0 {
-					cl = i
-					break
-				}
-			}
-		}
-		if cl < 0 {
-			return splitImplies(s)
-		}
-		inner := s[open+1 : cl]
-		// split inner on top-level commas, rewrite each piece
-		parts := splitTop(inner, ',')
-		for i := range parts {
-			parts[i] = splitImplies(parts[i])
-		}
-		s = s[:open+1] + strings.Join(parts, ",") + s[cl:]
-		if !strings.Contains(strings.Join(parts, ","), "==>") && !strings.Contains(s[:open], "==>") && !strings.Contains(s[cl:], "==>") {
-			return s
+		if depth == 0 {
+			sb.WriteByte(ch)
 		}
 	}
+	return splitImplies(sb.String())
 }
 
 func splitTop(s string, sep byte) []string {
